@@ -132,7 +132,8 @@ def expected_table(spec, api_routes):
             out[k] = ('2001:db8::1', med)
         else:
             k = (1, 24, socket.inet_aton(R[name].split('/')[0])[:3])
-            out[k] = ('192.0.2.1', med)
+            # spec['ext'][name]: the extended communities of the route's tail as they are on the wire (hex)
+            out[k] = ('192.0.2.1', med) + ((spec['ext'][name],) if name in spec.get('ext', {}) else ())
     for pfx, med in api_routes:
         k = (1, 24, socket.inet_aton(pfx.split('/')[0])[:3])
         out[k] = ('192.0.2.1', med)
@@ -196,6 +197,13 @@ def reload_pairs(tier, seed):
     for up in (True, False):
         cases.append((dict(routes={'A': 10}, hold=180), dict(routes={'A': 10, 'V6': None}, hold=180, families='ipv4 unicast; ipv6 unicast;'), up, False))
         cases.append((dict(routes={'A': 10}, hold=180), dict(routes={'A': 10, 'V6': None}, hold=90, families='ipv4 unicast; ipv6 unicast;'), up, True))
+    # an attribute changed into one which PRINTS like it (the attribute index was the text): extended communities which
+    # differ in their type octet / transitive bit / the AS field of a traffic-rate
+    alike = []
+    for a, b in ((('target:1:1', '0002000100000001'), ('target:1L:1', '0202000000010001')), (('0x0002000100000001', '0002000100000001'), ('0x4002000100000001', '4002000100000001')), (('0x8006000042c80000', '8006000042c80000'), ('0x8006123442c80000', '8006123442c80000'))):
+        for x, y in ((a, b), (b, a)):
+            for up in (True, False):
+                alike.append((dict(routes={'A': 10, 'B': None}, hold=180, tail={'A': f'extended-community [ {x[0]} ]'}, ext={'A': x[1]}), dict(routes={'A': 10, 'B': None}, hold=180, tail={'A': f'extended-community [ {y[0]} ]'}, ext={'A': y[1]}), up, False))
     # a neighbor without Adj-RIB-Out cache (adj-rib-out false, route-refresh disabled): the difference must still be applied
     nocache = []
     for old_r, new_r in itertools.product(route_sets[:5], repeat=2):
@@ -204,10 +212,10 @@ def reload_pairs(tier, seed):
     if tier == 'quick':
         rnd.shuffle(cases)
         rnd.shuffle(nocache)
-        keep = [c for c in cases if 'V6' in c[1]['routes']] + nocache[:16]
+        keep = [c for c in cases if 'V6' in c[1]['routes']] + nocache[:16] + alike
         cases = keep + [c for c in cases if 'V6' not in c[1]['routes']][:90]
     else:
-        cases += nocache
+        cases += nocache + alike
     for old, new, up, api in cases:
         evals += 1
         distinct.add(str((old, new, up, api)))
@@ -217,7 +225,7 @@ def reload_pairs(tier, seed):
         if len(samples) < 3:
             samples.append({'old': old, 'new': new, 'session_up_during_reload': up, 'api_route': api})
     fails.sort(key=lambda f: len(str(f['input'])))
-    return {'evaluations': evals, 'distinct_nontrivial': len(distinct), 'bound': '6 x 6 route sets (3 prefixes, attribute-only changes included) x {same, changed hold-time} x session up/down at reload x API route present/absent, plus family-added pairs' + (' (sample of 90 + family cases in the quick tier)' if tier == 'quick' else ' (all 292)'), 'rule': 'one case = (old configuration, new configuration, session state, API route); distinct by value', 'samples': samples, 'failures': fails}
+    return {'evaluations': evals, 'distinct_nontrivial': len(distinct), 'bound': '6 x 6 route sets (3 prefixes, attribute-only changes included) x {same, changed hold-time} x session up/down at reload x API route present/absent, plus family-added pairs, plus 12 pairs whose only change is an extended community which prints like the old one' + (' (sample of 90 + family cases in the quick tier)' if tier == 'quick' else ' (all 292)'), 'rule': 'one case = (old configuration, new configuration, session state, API route); distinct by value', 'samples': samples, 'failures': fails}
 
 
 @replayer('C17', 'reload-pairs')
